@@ -33,6 +33,14 @@ runs in its own child interpreter that imports loky from common.REPO:
                                                  -> pickler_not_the_one_selected_at_submit,
         set_loky_pickler_selection_wrong
 
+  E  (harness/inproc/reduction_extra.py, both back-ends) a user reducer keyed by a type loky
+     registers itself (functools.partial, bound methods) must win over the built-in one, in a
+     pickler and as job_reducers, and must be gone in the next pickler / the neighbouring
+     executor; inside a worker of an executor with result_reducers, loky picklers created by
+     the task (plain dumps, nested plain executor) must carry no mark of those reducers
+                                                 -> user_reducer_overridden_by_builtin,
+        reducer_leaked_into_worker_registry (+ the clause names of A/B)
+
 A child that times out or dies is inconclusive, never a violation.
 """
 import ast
@@ -58,6 +66,7 @@ PLAN = {
 }
 MAX_REPORTS_PER_SIG = 2  # identical mechanism signature
 MAX_REPORTS_PER_CLAUSE = 6  # same part + clause, whatever the rest of the signature
+CHILD_E = "import sys; from harness.inproc import reduction_extra as X; X.main(sys.argv[1], sys.argv[2])"
 CHILD = "import sys; from harness.inproc import reduction_monitor as M; sys.exit(M.child_main(sys.argv[1:]))"
 
 ASSUMPTIONS = [
@@ -322,6 +331,30 @@ def main(tier):
             extra = r["n_violations"] - len(r["violations"])
             if extra > 0:
                 cov_counters["violations_not_listed_same_child"] += extra
+        per_part["E"] = collections.Counter()
+        for backend in ("pickle", "cloudpickle"):
+            per_part["E"]["scenarios"] += 1
+            try:
+                cp = subprocess.run([common.PY, "-c", CHILD_E, common.REPO, backend], cwd=common.VERIF, env=common.repo_env(), capture_output=True, text=True, timeout=120)
+                rep = json.loads(cp.stdout[cp.stdout.index('{"backend"'):])
+            except subprocess.TimeoutExpired:
+                V.inconc("subprocess_timeout")
+                continue
+            except ValueError:
+                V.inconc("engine_failed")
+                engine_errors.append("E-%s: rc=%s\n%s" % (backend, cp.returncode, cp.stderr[-1500:]))
+                continue
+            per_part["E"]["finished"] += 1
+            per_part["E"]["evaluations"] += rep["checks"]
+            V.ok(rep["checks"] - len(rep["violations"]))
+            if not rep["violations"]:
+                nontrivial.add("E|%s" % backend)
+            for v in rep["violations"]:
+                sig = {"part": "E", "clause": v["clause"], "backend": backend}
+                rp = common.save_replay(PROP, "s%d-%s-E-%s-%d" % (seed, tier, backend, len(V.violations)), files={
+                    "violation.json": {"sig": sig, "text": v["text"]},
+                    "HOWTO.txt": "cd %s && %s -c %r %s %s\n" % (common.VERIF, common.PY, CHILD_E, common.REPO, backend)})
+                V.violation(sig, v["text"], rp)
     finally:
         shutil.rmtree(scratch, ignore_errors=True)
     for e in engine_errors[:3]:
@@ -329,6 +362,7 @@ def main(tier):
     if suppressed:
         print("(%d further violation report(s) with an already reported part+clause / signature not listed: %s)" % (suppressed, json.dumps(dict(clause_seen), sort_keys=True)))
     evaluations = sum(pp["evaluations"] for pp in per_part.values())
+    per_part.setdefault("E", collections.Counter())
     cov = {
         "evaluations": int(evaluations),
         "distinct_nontrivial": len(nontrivial),
@@ -341,7 +375,7 @@ def main(tier):
         "pickler_probes": int(cov_counters.get("pickler_probes", 0)),
         "other_counters": {k: int(v) for k, v in sorted(cov_counters.items()) if k not in ("registry_snapshots_compared", "executors_created", "tasks_run", "roundtrips_compared", "pickler_probes")},
         "per_part": {p: dict(c) for p, c in per_part.items()},
-        "distinct_nontrivial_by_part": {p: sum(1 for s in nontrivial if s.startswith(p + "|")) for p in "ABCD"},
+        "distinct_nontrivial_by_part": {p: sum(1 for s in nontrivial if s.startswith(p + "|")) for p in "ABCDE"},
         "scenarios_skipped_for_budget": int(skipped),
         "dispatch_point_rel": rel,
         "edge_observations": {"note": M.EDGE_NOTE, "cases": edges or []},
@@ -349,11 +383,11 @@ def main(tier):
     }
     wall = time.monotonic() - t0
     common.write_evidence(PROP, tier, "exploration", cov, wall, len(V.violations), ASSUMPTIONS)
-    need = {"A": max(2, plan["A"] // 2), "B": max(2, plan["B"] // 2), "D": max(2, plan["D"] // 2), "C": max(1, plan["C"][0])}
-    short = [p for p in "ABCD" if per_part[p]["finished"] < need[p]]
+    need = {"A": max(2, plan["A"] // 2), "B": max(2, plan["B"] // 2), "D": max(2, plan["D"] // 2), "C": max(1, plan["C"][0]), "E": 2}
+    short = [p for p in "ABCDE" if per_part[p]["finished"] < need[p]]
     floor_ok = not short and len(nontrivial) >= 20 and not engine_errors
     return V.finish(
         floor_ok,
         "part(s) %s finished fewer scenarios than required (%s), %d engine failure(s), %d scenario(s) skipped for the time budget, %d distinct non-trivial cases"
-        % (",".join(short) or "-", json.dumps({p: [per_part[p]["finished"], need[p]] for p in "ABCD"}), len(engine_errors), skipped, len(nontrivial)),
+        % (",".join(short) or "-", json.dumps({p: [per_part[p]["finished"], need[p]] for p in "ABCDE"}), len(engine_errors), skipped, len(nontrivial)),
     )
